@@ -141,3 +141,81 @@ Theorem C02_legacy_refuted :
     /\ exists b', cut_fragments repaired b k = Ok b' /\ b_cuts b' = b_cuts b + 1.
 Proof. exact legacy_keep_flags_refuted. Qed.
 Print Assumptions C02_legacy_refuted.
+
+(* ========================================================================
+   THE MAIN CLAUSE, for EVERY map whose baits are pairwise disjoint -- in
+   particular every edit script PretextView can produce, whatever the number
+   of cuts, the order, orientation and grouping of the pieces -- and every
+   configuration: whenever remapping completes, the result stored for a bait
+   (piece) satisfies the C18 invariant against its source scaffold (its rows
+   are ONE contiguous run of the source scaffold's rows, collinear, with the
+   input's internal gaps, only the terminal contigs possibly shortened,
+   covering exactly o_start .. o_end) AND still holds every contig base of the
+   source that lies at least 3 error lengths inside the bait; a bait for which
+   no result is stored has no such base.  (Orientation input x piece:
+   to_scaffold_rows reverses exactly the pieces whose bait is on the minus
+   strand, C14.)  What is NOT proved here is that remapping completes on every
+   PretextView script (decided by the oracle on every run). *)
+From Tola Require Proofs.CoreKept Proofs.CoreKeptDeepCut.
+Theorem C02_core_kept : forall c g prefix bpt input pretext rs,
+  0 <= fst bpt -> 0 < snd bpt ->
+  Forall (fun isc => Model.Lookup.pos_rows (snd isc)) input ->
+  NoDup (map key_of (Model.RemapSpec.in_frags input)) ->
+  Forall (fun b => 1 <= f_start b <= f_end b) (Proofs.CoreKept.baits_of pretext) ->
+  Proofs.CoreKept.disjoint_baits (Proofs.CoreKept.baits_of pretext) ->
+  remap_to_input c g prefix bpt input pretext = Ok rs ->
+  let err := error_length bpt in
+  (forall r, In r (b_store (rs_b rs)) ->
+     exists src, In (f_name (o_bait r), src) (number_input input 0)
+                 /\ In (o_bait r) (Proofs.CoreKept.baits_of pretext)
+                 /\ Model.OvrSpec.Inv src r /\ Proofs.CoreKept.core_kept err src r)
+  /\ (forall bait src, In bait (Proofs.CoreKept.baits_of pretext) ->
+        In (f_name bait, src) (number_input input 0) ->
+        (forall r, In r (b_store (rs_b rs)) -> o_bait r <> bait) ->
+        forall x, Proofs.CoreKept.in_core err bait x -> ~ Proofs.CoreKept.contig_base src x).
+Proof. exact Proofs.CoreKept.core_kept_end_to_end. Qed.
+Print Assumptions C02_core_kept.
+
+(* THE LAST CLAUSE in general: two abutting baits of one input scaffold and a
+   contig overlapping each of them in at least 3 error lengths: both results
+   exist, the first ends exactly at the boundary with the contig's near part
+   as its last row, the second starts exactly after it with the far part as
+   its first row -- the contig is split exactly at the position the Pretext
+   coordinate designates, whatever else the map contains (other cuts of the
+   same contig included). *)
+Theorem C02_deep_cut_exact : forall g prefix bpt input pretext rs b1 b2 src k f,
+  0 <= fst bpt -> 0 < snd bpt ->
+  Forall (fun isc => Model.Lookup.pos_rows (snd isc)) input ->
+  NoDup (map key_of (Model.RemapSpec.in_frags input)) ->
+  Forall (fun b => 1 <= f_start b <= f_end b) (Proofs.CoreKept.baits_of pretext) ->
+  Proofs.CoreKept.disjoint_baits (Proofs.CoreKept.baits_of pretext) ->
+  remap_to_input repaired g prefix bpt input pretext = Ok rs ->
+  let err := error_length bpt in
+  In b1 (Proofs.CoreKept.baits_of pretext) -> In b2 (Proofs.CoreKept.baits_of pretext) ->
+  f_name b1 = f_name b2 -> f_end b1 + 1 = f_start b2 ->
+  In (f_name b1, src) (number_input input 0) ->
+  nth_error src k = Some (RF f) ->
+  3 * err <= Z.min (f_end b1) (Model.Lookup.span_end src k) - Z.max (f_start b1) (Model.Lookup.span_start src k) + 1 ->
+  3 * err <= Z.min (f_end b2) (Model.Lookup.span_end src k) - Z.max (f_start b2) (Model.Lookup.span_start src k) + 1 ->
+  exists r1 r2 t1 f1 f2 t2 ls le,
+    In r1 (b_store (rs_b rs)) /\ In r2 (b_store (rs_b rs))
+    /\ o_bait r1 = b1 /\ o_bait r2 = b2
+    /\ o_rows r1 = t1 ++ [RF f1] /\ o_rows r2 = RF f2 :: t2
+    /\ o_end r1 = f_end b1 /\ o_start r2 = f_start b2
+    /\ Model.OvrSpec.trimmed f f1 ls (Model.Lookup.span_end src k - f_end b1)
+    /\ Model.OvrSpec.trimmed f f2 (f_start b2 - Model.Lookup.span_start src k) le.
+Proof. exact Proofs.CoreKeptDeepCut.deep_cut_exact_repaired. Qed.
+Print Assumptions C02_deep_cut_exact.
+
+(* non-vacuity of both: scaffold A(100) -10- B(200, minus strand) -10- C(100) cut
+   by the map 1..200 | 201..420 at a 1-bp texel (error length 2): the hypotheses
+   hold, the run completes, B is cut exactly at scaffold coordinate 200 *)
+Theorem C02_core_and_cut_instance :
+  (Forall (fun isc => Model.Lookup.pos_rows (snd isc)) Proofs.CoreKeptDeepCut.DeepCutExample.input
+   /\ NoDup (map key_of (Model.RemapSpec.in_frags Proofs.CoreKeptDeepCut.DeepCutExample.input))
+   /\ Forall (fun b => 1 <= f_start b <= f_end b) (Proofs.CoreKept.baits_of Proofs.CoreKeptDeepCut.DeepCutExample.pretext)
+   /\ Proofs.CoreKept.disjoint_baits (Proofs.CoreKept.baits_of Proofs.CoreKeptDeepCut.DeepCutExample.pretext)
+   /\ exists rs, remap_to_input repaired Proofs.CoreKeptDeepCut.DeepCutExample.g10 (s "SUPER_") (1, 1)
+                   Proofs.CoreKeptDeepCut.DeepCutExample.input Proofs.CoreKeptDeepCut.DeepCutExample.pretext = Ok rs).
+Proof. exact Proofs.CoreKeptDeepCut.DeepCutExample.hyps. Qed.
+Print Assumptions C02_core_and_cut_instance.
